@@ -108,6 +108,10 @@ func genSplats(r *rand.Rand, n, caseIdx int) ([]splatref.Splat, cloudDesc) {
 			return 0
 		case 3:
 			return (r.Float64() - 0.5) * 2e6
+		case 4:
+			// round 10 (C15-O): finite magnitudes beyond every integer type (1e8 ... 1e307): "colours clamp to the
+			// displayable range" whatever the size; a float-to-int conversion before the clamp wraps around
+			return math.Copysign((1+r.Float64())*math.Pow(10, float64(8+r.Intn(300))), float64(1-2*r.Intn(2)))
 		}
 		return r.Float64()*6 - 3
 	}
